@@ -1,12 +1,13 @@
 """C06 - histories are append-only and generations are numbered without gaps.
 
 Domain   generated histories: interleaved create / create -sf runs (succeeding or ending 10/11) and tree edits over
-         flat and nested layouts, under the real clock (several runs fall into one second) or a frozen one.
+         flat and nested layouts (folder names up to 227 bytes, the longest whose manifest name fits), under the real clock (several runs fall into one second) or a frozen one.
 Oracle   byte snapshots of every ascmhl folder before/after each run: old manifests identical; each touched history
          gains exactly one manifest, numbered max+1, named NNNN_<folder>_<UTC>Z.mhl with the UTC time inside the
          run's window; the chain (independent reader) = old entries unchanged, in order, + one entry whose
          sequence number, file name and c4 digest (own SHA-512/base-58) match the new file's bytes; untouched
-         histories byte-identical; reloading with the tool yields generations 1..n ascending.
+         histories byte-identical; a -sf run writes into every history between the invoked root and the owner
+         of each named file (also when that file fails verification); reloading with the tool yields generations 1..n ascending.
 """
 import datetime
 import posixpath
@@ -28,7 +29,7 @@ RULE = (
 )
 ASSUMPTIONS = ["the clock is the real one or freezegun's; no concurrent second writer on the same history"]
 BUDGET = {"quick": (220, 4), "thorough": (24000, 16)}
-REQUIRED = ["gens>=3", "failed_run", "same_second", "nested", "sf", "empty_root_sealed", "non_utc_host_zone", "same_named_children"]
+REQUIRED = ["gens>=3", "failed_run", "same_second", "nested", "sf", "empty_root_sealed", "non_utc_host_zone", "same_named_children", "folder_name>=219_bytes", "failing_sf_into_nested_history"]
 
 CFG = {
     "kinds": ["create"] * 6 + ["create_sf"] * 2 + ["put_new", "overwrite", "overwrite", "rm", "rm", "rmtree", "mkdir", "mv", "rmfiles"],
@@ -51,6 +52,13 @@ def _scn(draw):
         pre = [{"op": "create", "root": r, "formats": draw(gen.formats(2)), "flags": []} for r in draw(st.permutations(["A/Clips", "B/Clips"]))]
         s["steps"] = pre + s["steps"] + [{"op": "create", "root": "", "formats": draw(gen.formats(2)), "flags": []}]
         s["same_named_children"] = True
+    if draw(st.integers(0, 3)) == 0 and "N" not in hist.top_names_used(s):
+        # a file inside a nested history is altered and then named by a -sf run on the outer root (exit 11)
+        s["tree"]["N"] = {"reel": {"x.mov": "as recorded", "y.mov": "stays"}, "beside.mov": "b"}
+        fm = draw(gen.formats(2))
+        s["steps"] = [{"op": "create", "root": "N/reel", "formats": fm, "flags": []}] + s["steps"] + [
+            {"op": "create", "root": "", "formats": fm, "flags": []}, {"op": "overwrite", "path": "N/reel/x.mov", "spec": "altered afterwards"},
+            {"op": "create_sf", "root": draw(st.sampled_from(["", "N"])), "formats": fm, "flags": [], "sf": draw(st.sampled_from([["N/reel/x.mov"], ["N/reel"], ["N/reel/y.mov", "N/reel/x.mov"]]))}]
     s["frozen"] = draw(st.sampled_from([None, None, "2020-01-15 13:00:00", "1999-12-31 23:59:59"]))
     s["tz"] = draw(st.sampled_from([None, None, "IST-5:30", "America/Los_Angeles", "Pacific/Kiritimati"])) if s["frozen"] is None else None
     return s
@@ -60,6 +68,24 @@ def strategy(tier):
     return _scn()
 
 
+def enumerated(tier):
+    """folder names up to the longest one whose manifest name (NNNN_<folder>_<UTC>Z.mhl) still fits into 255 bytes"""
+    for n in (200, 219, 220, 224, 227):
+        for nested in (False, True):
+            long_ = "L" * (n - 4) + "%04d" % n
+            tree = {"a.mov": "alpha", "sub": {"b.mov": "beta"}}
+            if nested:
+                yield {"root": "top", "tree": {long_: tree, "c.mov": "gamma"}, "frozen": None, "tz": None, "spell": "abs", "steps": [
+                    {"op": "create", "root": long_, "formats": ["md5"], "flags": []}, {"op": "create", "root": "", "formats": ["xxh64"], "flags": []},
+                    {"op": "overwrite", "path": long_ + "/a.mov", "spec": "altered"}, {"op": "create", "root": "", "formats": ["md5"], "flags": []},
+                    {"op": "create_sf", "root": "", "formats": ["md5"], "flags": [], "sf": [long_ + "/sub/b.mov"]}]}
+            else:
+                yield {"root": long_, "tree": tree, "frozen": None, "tz": None, "spell": "abs", "steps": [
+                    {"op": "create", "root": "", "formats": ["md5"], "flags": []}, {"op": "create", "root": "", "formats": ["md5", "c4"], "flags": ["-n"]},
+                    {"op": "rm", "path": "a.mov"}, {"op": "create", "root": "", "formats": ["md5"], "flags": []},
+                    {"op": "create_sf", "root": "", "formats": ["sha1"], "flags": [], "sf": ["sub/b.mov"]}]}
+
+
 def group_by_history(asc):
     out = {}
     for p, b in asc.items():
@@ -67,9 +93,24 @@ def group_by_history(asc):
     return out
 
 
-def observe(w, before, after, res, t0, t1, frozen, ctx, stats, invoked=None):
+def observe(w, before, after, res, t0, t1, frozen, ctx, stats, invoked=None, sf=None):
     b = group_by_history(before)
     a = group_by_history(after)
+    if sf is not None and res.exc is None and res.exit_code in (0, 10, 11):
+        # -sf: the history that owns a named file, and every history between it and the invoked root, receives the new
+        # generation - also when the file fails verification (the failure is documented where the file is on record)
+        sfroot, named = sf
+        roots = w.history_roots()
+        for pth in named:
+            for f in ([pth] if pth in w.files else w.media_files(pth)):
+                if w.is_default_ignored(f):
+                    continue
+                own = w.deepest_root(f, roots)
+                for h in roots:
+                    if own is not None and w.under(own, h) and w.under(h, sfroot):
+                        require(a.get(h) != b.get(h), "sf-generation", "create -sf %r (%s) wrote no generation into %r, which lies on the way to the history that owns the file" % (f, res.brief(), h), res)
+                        if h != sfroot and res.exit_code == 11:
+                            ctx.event("failing_sf_into_nested_history")
     if invoked is not None and res.exc is None and res.exit_code in (0, 10, 11):
         # folder mode: the history of the invoked root always receives the new generation (even if the folder is empty)
         require(a.get(invoked) != b.get(invoked), "root-generation", "create on %r (%s) wrote no generation for it" % (invoked, res.brief()), res)
@@ -162,7 +203,8 @@ def _run(scn, ctx, stats):
                 res = hist.apply_step(w, scn, step, frozen=scn.get("frozen"))
                 t1 = time.time()
                 after = w.asc_files()
-                observe(w, before, after, res, t0, t1, scn.get("frozen"), ctx, stats, invoked=hist.wpath(scn, step["root"]) if step["op"] == "create" else None)
+                observe(w, before, after, res, t0, t1, scn.get("frozen"), ctx, stats, invoked=hist.wpath(scn, step["root"]) if step["op"] == "create" else None,
+                        sf=(hist.wpath(scn, step["root"]), [hist.wpath(scn, x) for x in step["sf"]]) if step["op"] == "create_sf" else None)
                 failed_run |= res.exit_code in (10, 11)
                 sf |= step["op"] == "create_sf"
             else:
@@ -172,6 +214,8 @@ def _run(scn, ctx, stats):
         nested = len(w.history_roots()) >= 2
         if scn.get("same_named_children"):
             ctx.event("same_named_children")
+        if any(len(posixpath.basename(h)) >= 219 for h in w.history_roots()):
+            ctx.event("folder_name>=219_bytes")
         for flag, name in ((deep, "gens>=3"), (failed_run, "failed_run"), (same, "same_second"), (nested, "nested"), (sf, "sf")):
             if flag:
                 ctx.event(name)
